@@ -2,7 +2,7 @@
    Proofs/Ext*.v over the model Ms/ExtModel.v (extra_props.rs, script_size, descriptor weights,
    Plan accounting) and Ms/Sat.v (satisfier). *)
 From Verif Require Import CodecSpec.
-From Verif Require Import ExecTr TypeCheck ExtModel ExtProofs ExtLemmas ExtThresh ExtSatSide ExtBounds ExtTyped ExtDesc ExtSize ExtExec ExtOps ExtCodec ExtDepth ExtTlSpec ExtTlProofs ExtKoModel ExtKoProofs.
+From Verif Require Import ExecTr TypeCheck ExtModel ExtProofs ExtLemmas ExtThresh ExtSatSide ExtBounds ExtTyped ExtDesc ExtSize ExtExec ExtOps ExtCodec ExtDepth ExtTlSpec ExtTlProofs ExtTlConv ExtKoModel ExtKoProofs.
 From Verif Require TheoremA.
 Local Open Scope N_scope.
 
@@ -389,6 +389,24 @@ Theorem C09_timelock_comb_paths_converse_refuted :
               /\ ~ path_mix m.
 Proof. exact timelock_comb_paths_converse_refuted. Qed.
 Print Assumptions C09_timelock_comb_paths_converse_refuted.
+(* The converse holds on the computable class [tl_total] (Proofs/ExtTlConv.v): every operand of a
+   conjunction (and_v, and_b, andor's X and Y, every child of a thresh) has a satisfying path and
+   thresh has 1 <= k <= n. There the flag is EXACT for satisfying paths, and a flag is set iff some
+   satisfying path needs a leaf of that kind and unit. *)
+Theorem C09_timelock_comb_exact_paths :
+  forall fx c m, tl_total m = true ->
+    (tl_comb (timelock_info (ext_of_gen fx c m)) = true <-> path_mix m).
+Proof. exact timelock_comb_exact_paths. Qed.
+Print Assumptions C09_timelock_comb_exact_paths.
+Theorem C09_timelock_flags_exact_paths :
+  forall fx c m l, tl_total m = true ->
+    (tl_flag (timelock_info (ext_of_gen fx c m)) l = true <-> exists p, In p (sat_paths m) /\ In l p).
+Proof. exact timelock_flags_exact_paths. Qed.
+Print Assumptions C09_timelock_flags_exact_paths.
+Example C09_tl_total_nonvacuous :
+  tl_total tl_and_mixed = true /\ tl_total (tl_thresh_mixed 2) = true /\ tl_total tl_converse_witness = false
+  /\ tl_total (MOrD (MCheck (MPkK 0)) (MAndV (MVerify (MCheck (MPkK 1))) (MOlder 10))) = true.
+Proof. exact tl_total_nonvacuous. Qed.
 Example C09_tl_nonvacuous :
   ms_height (tl_chain 401) = 402 /\ built_by_from_ast as_written tl_cx0 (tl_chain 401) = true
   /\ ms_height (tl_chain 402) = 403 /\ built_by_from_ast as_written tl_cx0 (tl_chain 402) = false
